@@ -40,6 +40,8 @@ void CanFdMessage64::read(AbstractFile & is) {
 
 void CanFdMessage64::write(AbstractFile & os) {
     /* pre processing */
+    if (data.size() > 255)
+        data.resize(255); // validDataBytes cannot express more
     validDataBytes = static_cast<uint8_t>(data.size());
 
     /*
